@@ -592,10 +592,15 @@ class T(object):
     def pre_randomize(self):
         if self.rebuild is not None:
             # the list is rebuilt for this call: the new objects are random in it, their own block applies
-            self.l.clear()
             self.made = [E(self.rebuild[0] + i) for i in range(self.rebuild[1])]
-            for e in self.made:
-                self.l.append(e)
+            if len(self.rebuild) > 2 and self.rebuild[2] and len(self.l) == len(self.made):
+                # (same length: the objects are replaced one by one through item assignment)
+                for i, e in enumerate(self.made):
+                    self.l[i] = e
+            else:
+                self.l.clear()
+                for e in self.made:
+                    self.l.append(e)
             self.rebuild = None
     @vsc.constraint
     def c0(self):
@@ -626,7 +631,9 @@ def objlist_cases(d):
         elif r < 82:
             ops.append(["setitem", d.randint(0, 3)])
         elif r < 91:
-            ops.append(["rebuild", d.randint(0, 4)])     # pre_randomize of the next call clears the list and appends n new objects
+            # pre_randomize of the next call clears the list and appends n new objects (n = -1: as many as it holds,
+            # replaced one by one through item assignment)
+            ops.append(["rebuild", -1 if d.chance(40) else d.randint(0, 4)])
         else:
             ops.append(["setk", d.randint(0, 3)])
     ops.append(["call", d.seed()])
@@ -708,7 +715,7 @@ def run_objlist(case):
                 k = o_[1]
             elif o_[0] == "rebuild":
                 tag[0] += 100
-                pending[0] = [tag[0], o_[1]]
+                pending[0] = [tag[0], o_[1]] if o_[1] >= 0 else [tag[0], len(cur), True]
                 top.rebuild = list(pending[0])
                 info["edits"] += 1
         except Exception as e:
